@@ -101,6 +101,21 @@ def handle (args : List String) (obs : String) : String :=
       model ++ "\t" ++ verdict
   | _ => "bad-case\tFAIL:bad-case"
 
+/-- c11c `<type hex> <data hex>`: the checked constructor. -/
+def handleCtor (args : List String) (obs : String) : String :=
+  match args.mapM hexDecode with
+  | some [t, d] =>
+    let model := match custom? t d with
+      | none => "err"
+      | some ev => "ok:" ++ encBytes (encodeFixed ev)
+    let verdict :=
+      if obs == "PANIC" then "FAIL:panic:" else
+      if obs.startsWith "ok" ∧ (t.contains 13 || t.contains 10) then "FAIL:type-with-line-break-accepted:"
+      else if obs == "err" ∧ !(t.contains 13 || t.contains 10) then "FAIL:clean-type-refused:"
+      else "ok"
+    model ++ "\t" ++ verdict
+  | _ => "bad-case\tFAIL:bad-case"
+
 /-- c11t `<threads> <n>`: per sender thread, the accepted events appear exactly once and in order. -/
 def handleStress (args : List String) (obs : String) : String :=
   match args with
